@@ -12,4 +12,4 @@ for p in "$@"; do
   done
 done
 git -C /repo worktree remove --force $WT
-rm -rf work/alt-*
+
